@@ -113,6 +113,8 @@ pub struct Cfg {
     /// MultiProgress::set_move_cursor(true): redraws move the cursor up instead of clearing the rows first
     /// (the set of bars and the height of their renderings must then stay the same)
     pub move_cursor: bool,
+    /// the terminal does not report its height (`TermLike::height()` is left to the trait default, 20 rows)
+    pub default_height: bool,
 }
 
 impl Cfg {
@@ -144,6 +146,7 @@ impl Cfg {
             odd_logs: false,
             may_omit: false,
             move_cursor: false,
+            default_height: false,
         }
     }
 
@@ -346,6 +349,7 @@ impl Hist for Cfg {
         clock::reset();
         let spy = Spy::new(self.w, self.h, self.vt);
         let target = match self.hz {
+            None if self.default_height => ProgressDrawTarget::term_like(spy.boxed_default_height()),
             None => ProgressDrawTarget::term_like(spy.boxed()),
             Some(hz) => ProgressDrawTarget::term_like_with_hz(spy.boxed(), hz),
         };
